@@ -302,12 +302,12 @@ theorem replayEntry_ok (C : Crypto) (hC : HashWF C) (d : Disk) (ol : Oplog.State
         dirty := by rw [← hb']; exact dirty_setRange _ _ _ _ _ hinv.dirty }
     · simp only [updateContiguous]; split <;> (try split) <;> rfl
     · simp only [updateContiguous]; split <;> (try split) <;> rfl
-  | append batch nodes sig fk hne hsig sound compl _ =>
+  | append batch nodes sig fk hne hw hsig sound compl _ =>
     have hemp : batch.isEmpty = false := by cases batch with | nil => exact absurd rfl hne | cons _ _ => rfl
     have hk : 0 < batch.length := List.length_pos_iff.mpr hne
     generalize hheld' : (fun i => a.held i || (decide (a.blocks.size ≤ i) && decide (i < a.blocks.size + batch.length))) = held'
-    have habs : (a.step (.append batch)).1 = { blocks := a.blocks ++ batch.toArray, held := held' } := by
-      simp only [Abs.step, hemp, ← hheld']; rfl
+    have habs : (a.step (.append batch)).1 = { a with blocks := a.blocks ++ batch.toArray, held := held' } := by
+      simp only [Abs.step, hw, hemp, ← hheld', Bool.true_eq_false, ite_false]; rfl
     rw [habs] at hsmall hN ⊢
     generalize hbs' : a.blocks ++ batch.toArray = bs' at hsmall sound compl hN
     have hsize' : bs'.size = a.blocks.size + batch.length := by rw [← hbs']; simp
@@ -652,10 +652,10 @@ theorem reopen_full (C : Crypto) (hC : HashWF C) (hTw : TreeWF C) (d : Disk) (os
 
 /-- … hence a core that represents `a`, given that the data store holds `a`'s held blocks -/
 theorem reopen_refines (C : Crypto) (hC : HashWF C) (hTw : TreeWF C) (d : Disk) (ost : Oplog.State) (hf : Header) (es : List Entry)
-    (a0 a : Abs) (sk : Bytes) (ops : List SOp) (hops : ∀ op ∈ ops, op.store = .oplog)
+    (a0 a : Abs) (ops : List SOp) (hops : ∀ op ∈ ops, op.store = .oplog)
     (hlog : Oplog.openLog none d.oplog.toList = .ok ⟨ost, hf, ops, es⟩)
     (hlen : hf.tree.length = a0.blocks.size) (hsig : hf.tree.signature = [] ∨ hf.tree.signature.length = 64)
-    (hsec : hf.secret = some sk) (hshape : HdrShape hf) (hoks : ∀ e ∈ es, EntryOK e)
+    (hsec : hf.secret.isSome = a.writable) (hshape : HdrShape hf) (hoks : ∀ e ∈ es, EntryOK e)
     (hN : NodesOK C a0.blocks {} d.tree)
     (hstable : ∀ i, (∀ e ∈ es, ¬ Touches e i) → (Bitfield.ofFile d.bitfield).get i = a0.held i)
     (hkept : ∀ i, a0.held i = true → (Bitfield.ofFile d.bitfield).get i = true ∨ ∃ e ∈ es, Clears e i)
@@ -674,7 +674,7 @@ theorem reopen_refines (C : Crypto) (hC : HashWF C) (hTw : TreeWF C) (d : Disk) 
   have hd1d : (d.applyAll ops).data = d.data := data_of_applyAll _ _ (fun op hop => by rw [hops op hop]; decide)
   refine ⟨_, hopen, ?_⟩
   exact {
-    writer := by simp [hs', hsec]
+    writer := by show h'.secret.isSome = a.writable; rw [hs']; exact hsec
     tree := hinv'.tree
     nodes := by rw [hd1t]; exact hinv'.nodes
     mapwf := hinv'.mapwf
